@@ -174,9 +174,13 @@ func (rr *SIG) Verify(k *KEY, buf []byte) error {
 		}
 	case ECDSAP256SHA256, ECDSAP384SHA384:
 		pk := k.publicKeyECDSA()
-		r := new(big.Int).SetBytes(sig[:len(sig)/2])
-		s := new(big.Int).SetBytes(sig[len(sig)/2:])
 		if pk != nil {
+			// r and s are each as long as the order of the curve (RFC 6605 4)
+			if len(sig) != 2*((pk.Curve.Params().BitSize+7)/8) {
+				return ErrSig
+			}
+			r := new(big.Int).SetBytes(sig[:len(sig)/2])
+			s := new(big.Int).SetBytes(sig[len(sig)/2:])
 			if ecdsa.Verify(pk, hashed, r, s) {
 				return nil
 			}
